@@ -70,7 +70,7 @@ class Path:
 
 
 class State:
-    __slots__ = ('env', 'heap', 'ver', 'events', 'conds', 'known', 'loops', 'status', 'truncated', 'retfacts', 'epoch')
+    __slots__ = ('env', 'heap', 'ver', 'events', 'conds', 'known', 'loops', 'status', 'truncated', 'retfacts', 'epoch', 'contents', 'approx')
 
     def __init__(self):
         self.env: Dict[str, Term] = {}
@@ -84,6 +84,8 @@ class State:
         self.truncated = False
         self.retfacts: Dict[Term, list] = {}
         self.epoch = 0
+        self.contents: Dict[Term, Optional[tuple]] = {}   # exact element lists of lists allocated in the activation
+        self.approx = 0          # > 0 while inside a loop body that stands for arbitrarily many iterations
 
     def fork(self) -> "State":
         s = State()
@@ -98,6 +100,8 @@ class State:
         s.truncated = self.truncated
         s.retfacts = dict(self.retfacts)
         s.epoch = self.epoch
+        s.contents = dict(self.contents)
+        s.approx = self.approx
         return s
 
 
@@ -819,9 +823,55 @@ class _Ctx:
                     st.env[e.id] = sym(e.id)
         return info
 
+    @staticmethod
+    def _literal_items(it: Term):
+        """Items of a literal tuple / list display whose elements are all known (constants or tuples of terms)."""
+        def plain(items):
+            return all(not (isinstance(x, App) and x.fn == '*') for x in items)
+        if isinstance(it, TupleT) and 0 < len(it.items) <= 8 and plain(it.items):
+            return list(it.items)
+        if isinstance(it, Fresh) and it.kind == 'list' and it.detail is None and 0 < len(it.items) <= 8 and plain(it.items):
+            return list(it.items)
+        return None
+
     def st_For(self, s, st):
         it = self.ev(s.iter, st, stmt=s)
         lid = s.lineno
+        items = self._literal_items(it) if (not isinstance(s.iter, ast.Name) or isinstance(it, TupleT)) else None
+        if items is not None and not s.orelse:
+            # a loop over a display written in place runs exactly once per element: unrolled completely
+            pre = self._after_calls(st)
+            cur = []
+            results = []
+            for p0 in pre:
+                if p0.status != 'normal':
+                    results.append(p0)
+                else:
+                    self.emit(p0, 'loop', s, iter=it, iter_expr=s.iter, target=s.target, literal=True)
+                    cur.append(p0)
+            for k, item in enumerate(items):
+                nxt = []
+                for c in cur:
+                    c.loops = c.loops + (lid,)
+                    self.assign(s.target, item, c, s, loopvar=True)
+                    self.emit(c, 'iter', s, k=k + 1, info={'iter': it, 'kind': 'literal', 'var': item, 'item': item})
+                    for b in self.block(s.body, [c]):
+                        b.loops = b.loops[:-1] if b.loops and b.loops[-1] == lid else b.loops
+                        if b.status in ('normal', 'continue'):
+                            b.status = 'normal'
+                            nxt.append(b)
+                        elif b.status == 'break':
+                            b.status = 'normal'
+                            self.emit(b, 'endloop', s, iterations=k + 1, how='break', at_bound=False)
+                            results.append(b)
+                        else:
+                            results.append(b)
+                cur = nxt
+                self.check_cap(results + cur)
+            for c in cur:
+                self.emit(c, 'endloop', s, iterations=len(items), how='exhausted', at_bound=False)
+                results.append(c)
+            return results
         results: List[State] = []
         pre = self._after_calls(st)
         cur: List[State] = []
@@ -847,9 +897,11 @@ class _Ctx:
             nxt = []
             for c in nxt_input:
                 c.loops = c.loops + (lid,)
+                c.approx += 1
                 info = self.bind_loop_target(s.target, s.iter, it, c, "'" * k, s)
                 self.emit(c, 'iter', s, k=k + 1, info=info)
                 for b in self.block(s.body, [c]):
+                    b.approx = max(0, b.approx - 1)
                     b.loops = b.loops[:-1] if b.loops and b.loops[-1] == lid else b.loops
                     if b.status in ('normal', 'continue'):
                         b.status = 'normal'
@@ -889,10 +941,12 @@ class _Ctx:
                             continue
                     if d is not False and k < self.opts.unroll:
                         c2.loops = c2.loops + (lid,)
+                        c2.approx += 1
                         self.emit(c2, 'cond', s, formula=f, taken=True, raw=s.test, loop_test=True)
                         self.assert_cond(c2, f)
                         self.emit(c2, 'iter', s, k=k + 1, info={'kind': 'while'})
                         for b in self.block(s.body, [c2]):
+                            b.approx = max(0, b.approx - 1)
                             b.loops = b.loops[:-1] if b.loops and b.loops[-1] == lid else b.loops
                             if b.status in ('normal', 'continue'):
                                 b.status = 'normal'
@@ -1114,6 +1168,8 @@ class _Ctx:
             if not loopvar:
                 self.emit(st, 'assign', node, name=t.id, value=v)
         elif isinstance(t, (ast.Tuple, ast.List)):
+            if isinstance(v, Fresh) and st.contents.get(v) is not None and len(st.contents[v]) == len(t.elts):
+                v = TupleT(tuple(st.contents[v]))
             for i, e in enumerate(t.elts):
                 if isinstance(v, TupleT) and len(v.items) == len(t.elts):
                     self.assign(e, v.items[i], st, node, loopvar=loopvar)
@@ -1312,7 +1368,10 @@ class _Ctx:
         return TupleT(tuple(self.ev(x, st) for x in e.elts))
 
     def ex_List(self, e, st):
-        return Fresh('list', tuple(self.ev(x, st) for x in e.elts), e.lineno)
+        r = Fresh('list', tuple(self.ev(x, st) for x in e.elts), e.lineno)
+        if not any(isinstance(x, App) and x.fn == '*' for x in r.items):
+            st.contents[r] = tuple(r.items) if st.approx == 0 else None
+        return r
 
     def ex_Set(self, e, st):
         return Fresh('set', tuple(self.ev(x, st) for x in e.elts), e.lineno)
@@ -1324,11 +1383,29 @@ class _Ctx:
         return Fresh('dict', tuple(items), e.lineno)
 
     def _comp(self, e, st, kind, elt_expr, key_expr=None):
+        pre_it = None
+        if kind in ('listcomp', 'gen') and len(e.generators) == 1 and not e.generators[0].ifs and key_expr is None:
+            it0 = self.ev(e.generators[0].iter, st)
+            pre_it = it0
+            if isinstance(it0, Fresh) and st.contents.get(it0) is not None:
+                it0 = TupleT(tuple(st.contents[it0]))
+            items = self._literal_items(it0)
+            if items is not None and (not isinstance(e.generators[0].iter, ast.Name) or isinstance(it0, TupleT)):
+                saved0 = dict(st.env)
+                vals = []
+                for item in items:
+                    self.assign(e.generators[0].target, item, st, e, loopvar=True)
+                    vals.append(self.ev(elt_expr, st))
+                st.env.clear()
+                st.env.update(saved0)
+                r = Fresh('list', tuple(vals), e.lineno)
+                st.contents[r] = tuple(vals) if st.approx == 0 else None
+                return r
         saved = dict(st.env)
         st.loops = st.loops + (e.lineno,)
         gens = []
-        for g in e.generators:
-            it = self.ev(g.iter, st)
+        for gi, g in enumerate(e.generators):
+            it = pre_it if (gi == 0 and pre_it is not None) else self.ev(g.iter, st)
             info = self.bind_loop_target(g.target, g.iter, it, st, '', e)
             conds = tuple(self.formula(self.ev(c, st), st) for c in g.ifs)
             tgt = self.ev(_load(g.target), st)
@@ -1527,7 +1604,12 @@ class _Ctx:
         sub_ctx = _Ctx(self.w, callee, self.opts, self.inline_stack + (callee.qualname,),
                        root_types=self.root_types if self.root_types is not None else self.types)
         saved_env = st.env
-        st.env = dict(benv)
+        if callee.parent is not None and (callee.parent.qualname == self.fn.qualname or callee.parent.qualname in self.inline_stack):
+            closure = dict(saved_env)      # a nested function sees the enclosing activation's locals
+            closure.update(benv)
+            st.env = closure
+        else:
+            st.env = dict(benv)
         try:
             if body is not None:
                 for stmt in body[:-1]:
@@ -1587,6 +1669,45 @@ class _Ctx:
                 return BoolT(AIsInst(args[0], args[1]))
             if b == 'hasattr' and len(args) == 2:
                 return BoolT(ATruthy(App('hasattr', tuple(args))))
+            if b == 'getattr' and len(args) >= 2 and isinstance(args[1], Const) and isinstance(args[1].value, str) and \
+                    not isinstance(args[0], App):
+                pth = Attr(args[0], args[1].value)
+                return st.heap.get(pth, pth)
+            if b == 'setattr' and len(args) == 3 and isinstance(args[1], Const) and isinstance(args[1].value, str):
+                fake = ast.Attribute(value=e.args[0], attr=args[1].value, ctx=ast.Store())
+                ast.copy_location(fake, e)
+                st.heap[Attr(args[0], args[1].value)] = args[2]
+                bt = self.ti.expr_type(e.args[0], self.fn, self.types)
+                self.store_event(st, e, fake, Attr(args[0], args[1].value), 'rebind', value=args[2], attr=args[1].value, aug=None,
+                                 operand=None, base=args[0], base_expr=e.args[0], base_type=bt)
+                return Const(None)
+            if b in ('all', 'any') and len(args) == 1:
+                a0 = args[0]
+                if isinstance(a0, Fresh) and st.contents.get(a0) is not None:
+                    a0 = TupleT(tuple(st.contents[a0]))
+                its = self._literal_items(a0)
+                if its is not None:
+                    fs = [self.formula(v, st) for v in its]
+                    return BoolT(f_and(*fs) if b == 'all' else f_or(*fs))
+            if b in ('all', 'any', 'tuple', 'list') and len(args) == 1 and isinstance(e.args[0], (ast.GeneratorExp, ast.ListComp)) \
+                    and len(e.args[0].generators) == 1 and not e.args[0].generators[0].ifs:
+                g = e.args[0].generators[0]
+                src_items = self._literal_items(self.ev(g.iter, st))
+                if src_items is not None:
+                    saved = dict(st.env)
+                    vals = []
+                    for item in src_items:
+                        self.assign(g.target, item, st, e, loopvar=True)
+                        vals.append(self.ev(e.args[0].elt, st))
+                    st.env.clear()
+                    st.env.update(saved)
+                    if b == 'all':
+                        return BoolT(f_and(*[self.formula(v, st) for v in vals]))
+                    if b == 'any':
+                        return BoolT(f_or(*[self.formula(v, st) for v in vals]))
+                    if b == 'tuple':
+                        return TupleT(tuple(vals))
+                    return Fresh('list', tuple(vals), e.lineno)
             if b in ('list', 'dict', 'set', 'tuple', 'sorted', 'frozenset'):
                 ev = self.emit(st, 'call', e, targets=[], target_kind='builtin', callee_name='builtins.' + b,
                                recv=None, args=tuple(args), kw=kwt, via='func', expr=e)
@@ -1617,6 +1738,11 @@ class _Ctx:
                                       value=args[-1] if args else None)
                 self.bump(st, recv)
                 vb = self.versioned(st, recv)
+                if isinstance(recv, Fresh) and recv in st.contents:
+                    if name == 'append' and len(args) == 1 and st.contents[recv] is not None and st.approx == 0:
+                        st.contents[recv] = st.contents[recv] + (args[0],)
+                    else:
+                        st.contents[recv] = None
                 if name in ('append', 'add') and args:
                     st.known[AIn(args[0], vb)] = True
                 if name == 'insert' and len(args) == 2:
